@@ -2,6 +2,7 @@
 import json
 import common
 import random
+import numpy as np
 import warnings
 
 import lazy_dataset
@@ -140,6 +141,22 @@ def direct_oracle(c):
             if pos != sorted(pos):
                 fails.append(('groupby_order', {'group': g, 'members': pos}))
             seen += pos
+            # a group is a dataset of its own: every index of either sign (Python and numpy integers) addresses ITS
+            # examples, everything outside [-len, len) is refused
+            m = len(members)
+            for i in range(-m - 2, m + 2):
+                for typ in (int, np.int64):
+                    try:
+                        got = gds[typ(i)]
+                    except IndexError:
+                        got = IndexError
+                    except Exception as e:  # noqa
+                        got = repr(e)[:80]
+                    want = members[i] if -m <= i < m else IndexError
+                    if got is not want and got != want:
+                        fails.append(('group_index', {'group': repr(g), 'len': m, 'index': i, 'index_type': typ.__name__,
+                                                      'got': repr(got)[:120], 'want': repr(want)[:120]}))
+                        break
         if groups and sorted(seen) != list(range(len(vals))):
             fails.append(('groupby_partition', {'members': seen}))
         if not groups and vals:
